@@ -8,9 +8,13 @@ HERE = os.path.dirname(os.path.dirname(os.path.abspath(__file__)))
 props = [json.loads(l)["id"] for l in open(os.path.join(HERE, "properties.jsonl"))]
 checks = []
 claimed = set()
+enabled_path = os.path.join(HERE, "manifest.d", "enabled.txt")
+enabled = set(open(enabled_path).read().split()) if os.path.exists(enabled_path) else None
 for f in sorted(glob.glob(os.path.join(HERE, "manifest.d", "C*.json"))):
     d = json.load(open(f))
     pid = d["property_id"]
+    if enabled is not None and pid not in enabled:
+        continue  # fragment exists but the coordinator has not yet validated the check
     d.setdefault("quick_cmd", "./check %s --tier quick" % pid)
     d.setdefault("thorough_cmd", "./check %s --tier thorough" % pid)
     d.setdefault("evidence_file", "evidence/%s.json" % pid)
